@@ -25,7 +25,7 @@ static mut RE_AZ: Option<Regex> = None;
 
 pub fn transform_dom(s: &str, flipped: bool, elongate: bool, with_markers: bool) -> Cow<str> {
     // Exclude access-keys and other single-char messages
-    if s.len() == 1 {
+    if s.chars().count() == 1 {
         return s.into();
     }
 
